@@ -246,6 +246,7 @@ class Prop(object):
     QUICK = (12, 20)
     THOROUGH = (150, 40)
     ASSUMPTIONS = []
+    FUZZ_RUNS = 0     # thorough tier only: libFuzzer executions per shard of the coverage-guided history fuzzer (tv/fuzz.py)
     LEVEL_TEXT = ("Generated-input search: Hypothesis rule-based histories checked after every step against an explicit "
                   "oracle; bounded (case counts and sizes in the evidence file); finds counterexamples, never proves absence.")
     LEVEL_NOTE = ("Trusted: the harness's ledger (built from request inputs and reported ids only), Python's re and struct; "
